@@ -169,6 +169,8 @@ fn snapshot_method(m: &MDesc, len: u64, class: usize, seed: u64, all_k: bool, r:
 						if let Some((j, a, b)) = bad {
 							// root-cause keyed: SMM rebuilds its sorted buffer on restore, so equal zeros may change places
 							let zero_only = a.as_f64().map_or(false, |x| x == 0.0) && b.as_f64().map_or(false, |x| x == 0.0);
+							// (a finer split - "known only if the window held zeros of both signs at the snapshot" - is wrong: the live sorted buffer
+							// can keep a zero of the other sign than the window after a numeric-equality removal, so the defect also shows then)
 							let sig = if zero_only && (m.name == "SMM" || m.name == "MedianAbsDev") { "C13|SMM|restored-diverges|sign-of-zero-only".to_string() } else { format!("C13|{}|restored-diverges", m.name) };
 							r.violate(&sig, "a restored instance does not continue bit-identically", || json!({"case": case(k, "continuation"), "steps_after_snapshot": j, "original": a, "restored": b}));
 						}
